@@ -8,7 +8,8 @@ PROPS="$@"
 [ -z "$PROPS" ] && PROPS="$(python3 -c "import json;print(json.load(open('$DIR/meta.json'))['property'])")"
 cd /repo || exit 2
 if ! git diff --quiet; then echo "/repo has uncommitted changes"; exit 2; fi
-git apply "$DIR/patch.diff" || { echo "$NAME: patch does not apply to current /repo"; exit 2; }
+PATCH="$DIR/patch.diff"; [ -f "$DIR/patch.rebased.diff" ] && PATCH="$DIR/patch.rebased.diff"
+git apply "$PATCH" || { echo "$NAME: patch does not apply to current /repo"; exit 2; }
 for P in $PROPS; do
   out=$(cd /verif && ./check $P quick 2>&1); rc=$?
   v=$(echo "$out" | grep -c "^VIOLATION")
